@@ -40,6 +40,9 @@ func (e *Engine) verifyFunc(blk *Block, prop string) (fv *FuncVer, err error) {
 	st := &State{cells: map[cellKey]Val{}, heaps: map[string]*Term{}, globals: map[string]*Term{}, pcSet: map[string]bool{}}
 	st.nextRef = c.Fresh("nr", SInt)
 	st.assume(IGe(st.nextRef, IntLit(1)))
+	if st.nextRef.Sym != nil {
+		st.nextRef.Sym.Lower = IntLit(1)
+	}
 	fv.frameSeq = 1
 	f := &Frame{id: 1, fn: fn, regs: map[ssa.Value]Val{}}
 	fv.entryVars = map[string]SVal{}
@@ -149,6 +152,11 @@ func (fv *FuncVer) checkEnsures(st *State, res []Val) {
 	fv.checkFrame(st, env)
 	// reachability of a normal return (vacuity guard)
 	fv.addCover(st, "return", "some normal return is reachable")
+	// and each return statement on its own (a contradiction among assumptions made on the way to
+	// one of them would make its postconditions vacuous)
+	if a := fv.anchorAt(fv.curPos(st), ""); a != "" {
+		fv.addCover(st, "return@"+a, "this return statement is reachable")
+	}
 }
 
 
